@@ -16,6 +16,7 @@ import (
 	"strings"
 	"sync"
 	"sync/atomic"
+	"time"
 
 	"rivaas.dev/app"
 	rverrors "rivaas.dev/errors"
@@ -198,6 +199,8 @@ type ReqState struct {
 	Probe  bool
 	// Hook is called for acts chainx does not know (C10's synchronisation acts).
 	Hook func(c *router.Context, st *ReqState, hid int, a Act)
+	// App: the application the request is served by (nil in the router world)
+	App *app.App
 }
 
 // states of requests that travel through a real HTTP server (no context value survives the wire):
@@ -258,8 +261,49 @@ func (e *nilErr) Error() string { return e.msg }
 // TypedNilPanic: a panic value whose own Error method panics (fmt verbs survive that, a direct call does not).
 const TypedNilPanic = 10
 
+// GatePanic: the panic is raised inside a framework helper that works under a lock — a readiness gate whose
+// Ready method panics, called through app.Readiness().Check() (router world: a plain panic with the same text).
+const GatePanic = 11
+
+const gatePanicText = "gate: connection pool is nil"
+
+type panickyGate struct{}
+
+func (panickyGate) Ready() bool  { panic(gatePanicText) }
+func (panickyGate) Name() string { return "db" }
+
+type okGate struct{}
+
+func (okGate) Ready() bool  { return true }
+func (okGate) Name() string { return "late" }
+
+// ReadinessAlive registers a gate and runs a readiness check as a component would do later in the life of the
+// application; false = that did not come back within 2 s.
+func ReadinessAlive(a *app.App) bool {
+	if readinessHung.Load() { // one witness per run is enough: every further one costs two seconds
+		return true
+	}
+	done := make(chan struct{})
+	go func() {
+		defer close(done)
+		a.Readiness().Unregister("db")
+		a.Readiness().Register("late", okGate{})
+		a.Readiness().Check()
+		a.Readiness().Unregister("late")
+	}()
+	select {
+	case <-done:
+		return true
+	case <-time.After(2 * time.Second):
+		readinessHung.Store(true)
+		return false
+	}
+}
+
+var readinessHung atomic.Bool
+
 // RPanicValues are the values the recovery cases draw from.
-var RPanicValues = []int{0, 1, 2, 3, 4, 5, 6, 7, WriterPanic, TypedNilPanic}
+var RPanicValues = []int{0, 1, 2, 3, 4, 5, 6, 7, WriterPanic, TypedNilPanic, GatePanic}
 
 // ErrBoom is panic value 0 (a package-level error, so that an application's error mapping can know it).
 var ErrBoom = errors.New("boom")
@@ -311,6 +355,9 @@ func PanicIndex(p any) int {
 		if strings.HasPrefix(x, "invalid WriteHeader code") {
 			return WriterPanic
 		}
+		if x == gatePanicText {
+			return GatePanic
+		}
 		return 1
 	case customPanic:
 		return 3
@@ -359,6 +406,13 @@ func runActs(c *router.Context, st *ReqState, hid int, acts []Act) {
 					_ = c.JSON(0, map[string]int{"h": hid})
 				}
 				panic(writerPanicText)
+			}
+			if a.V == GatePanic {
+				if st.App != nil {
+					st.App.Readiness().Register("db", panickyGate{})
+					st.App.Readiness().Check()
+				}
+				panic(gatePanicText)
 			}
 			doPanic(a.V)
 		case "K":
@@ -718,6 +772,7 @@ func (w *World) ServeOn(h http.Handler, t Target, st *ReqState) Result {
 	ctx, cancel := context.WithCancel(context.WithValue(context.Background(), ctxKey{}, st))
 	defer cancel()
 	st.Cancel = cancel
+	st.App = w.App
 	req := httptest.NewRequest(http.MethodGet, SegPath(t.Path), nil).WithContext(ctx)
 	if t.Ver >= 0 {
 		req.Header.Set(VersionHeader, "v"+strconv.Itoa(t.Ver))
@@ -744,6 +799,7 @@ func (w *World) ServeOn(h http.Handler, t Target, st *ReqState) Result {
 const WireEscaped = 9
 
 func (w *World) ServeWire(srv *httptest.Server, t Target, st *ReqState) Result {
+	st.App = w.App
 	id := strconv.FormatInt(wireSeq.Add(1), 10)
 	wireStates.Store(id, st)
 	defer wireStates.Delete(id)
